@@ -185,6 +185,13 @@ var shapes = []shape{
 	{"dir-nonexec+after", "dir", func(v string) []sfile { return []sfile{cand(0o644)(v), after} }, true, true, true, "nonexec"},
 	{"dir-exe+subdir", "dir", func(v string) []sfile { return []sfile{cand(0o755)(v), subExe("sub"), subData("sub")} }, true, true, true, "exe"},
 	{"dir-nonexec+subdir", "dir", func(v string) []sfile { return []sfile{cand(0o644)(v), subExe("sub"), subData("sub")} }, true, true, false, "nonexec"},
+	// a sub-directory that carries the same name as the source directory itself
+	{"dir-exe+subdir-named-like-source", "dir", func(v string) []sfile {
+		return []sfile{cand(0o755)(v), subExe(srcDirName), subData(srcDirName)}
+	}, true, true, true, "exe"},
+	{"dir-nonexec+subdir-named-like-source", "dir", func(v string) []sfile {
+		return []sfile{cand(0o644)(v), subExe(srcDirName), subData(srcDirName)}
+	}, true, true, true, "nonexec"},
 	{"dir-exe+before+after+subdir", "dir", func(v string) []sfile {
 		return []sfile{before, cand(0o755)(v), after, subExe("sub"), subData("sub")}
 	}, true, true, false, "exe"},
@@ -679,29 +686,36 @@ func judged(mgr *plugin.CLIManager, root, srcBase string, m model, o op, beforeT
 	res.Outcome = "install:" + reason + "->" + observed
 
 	// --- the decision -------------------------------------------------------
+	// keys: by version pair when the source is one of the two plain shapes, by
+	// shape otherwise (then the shape, not the pair, is what is special)
+	plain := sh.Label == "file-exe" || sh.Label == "dir-exe"
+	by := func(family, plainLabel string) string {
+		if plain {
+			return "install/" + family + ":" + plainLabel
+		}
+		return "install/" + family + "-from-shape:" + sh.Label
+	}
 	switch {
 	case want == "refuse" && ierr == nil:
 		switch reason {
 		case "unusable-source":
 			res.violation("install/accepted-unusable-source:"+sh.Label, "%s from state %s succeeded although the source is not a usable plugin source", o, showTree(beforeT))
 		case "invalid-metadata":
-			l := sh.Label
-			if sh.MetaOK {
-				l = "version-" + vlabel(o.Version)
+			if !sh.MetaOK {
+				res.violation("install/accepted-invalid-metadata:"+sh.Label, "%s succeeded although the candidate's metadata is invalid or names another plugin", o)
+			} else {
+				res.violation(by("accepted-invalid-metadata", "version-"+vlabel(o.Version)), "%s succeeded although the candidate's metadata lacks a mandatory field", o)
 			}
-			res.violation("install/accepted-invalid-metadata:"+l, "%s succeeded although the candidate's metadata is invalid or names another plugin", o)
 		case "invalid-version":
-			res.violation("install/accepted-invalid-version:"+pair, "%s over existing %s succeeded without overwrite although a version is not a semantic version", o, m.Existing)
+			res.violation(by("accepted-invalid-version", pair), "%s over existing %s succeeded without overwrite although a version is not a semantic version", o, m.Existing)
 		default:
-			res.violation("install/accepted-not-higher:"+pair, "%s over existing %s succeeded without overwrite (%s)", o, m.Existing, reason)
+			res.violation(by("accepted-not-higher", pair), "%s over existing %s succeeded without overwrite (%s)", o, m.Existing, reason)
 		}
 	case want == "proceed" && ierr != nil:
-		switch {
-		case reason == "higher" && (sh.Label == "file-exe" || sh.Label == "dir-exe"):
-			res.violation("install/refused-higher:"+pair, "%s over existing %s refused: %v", o, m.Existing, ierr)
-		case reason == "higher":
-			res.violation("install/refused-higher-from-shape:"+sh.Label, "%s over existing %s refused: %v", o, m.Existing, ierr)
-		case reason == "overwrite":
+		switch reason {
+		case "higher":
+			res.violation(by("refused-higher", pair), "%s over existing %s refused: %v", o, m.Existing, ierr)
+		case "overwrite":
 			res.violation("install/refused-despite-overwrite:"+sh.Label, "%s over existing %s refused: %v", o, m.Existing, ierr)
 		default:
 			res.violation("install/refused-without-existing-plugin:"+sh.Label, "%s into a root without plugin foo refused: %v", o, ierr)
@@ -1036,7 +1050,7 @@ func search(r *hx.Run) {
 	for i, o := range ops {
 		opIdx[o] = i
 	}
-	var controls, transitions int64
+	var controls, transitions, violating int64
 	maxDepth, level := 0, 0
 	capped := false
 	var caseSeq int64
@@ -1086,6 +1100,12 @@ func search(r *hx.Run) {
 			}
 			if transitions%997 == 1 {
 				r.Sample(map[string]any{"init": s.Init, "history": fmt.Sprint(s.Hist), "state_model": s.Model, "op": o.String(), "reference": res.Want, "outcome": res.Outcome, "error": res.Err, "tree_after": showTree(res.After)})
+			}
+			if len(res.Viol) > 0 {
+				// the model of a successor reached through a violating transition is unreliable
+				// (e.g. the installed bytes are not the source's): do not explore from it
+				violating++
+				continue
 			}
 			if t, ok := seen[res.AfterHash]; ok {
 				if t.Model != res.Model {
@@ -1145,6 +1165,7 @@ func search(r *hx.Run) {
 	}
 
 	r.Extra["fixpoint_reached"] = !capped
+	r.Extra["violating_transitions_not_explored_further"] = violating
 	r.Extra["max_depth"] = maxDepth
 	r.Extra["bfs_levels_closed"] = level
 	r.Extra["operations_per_state"] = len(ops)
